@@ -26,7 +26,7 @@ inductive Instr
 deriving DecidableEq, Repr
 
 inductive Dir
-  | adv (k s : Nat) | dlv (k : Nat) | dlvEnd | wake (n : Nat) | wdrop (n : Nat) | start (j : Nat) | cancel (i : Nat)
+  | adv (k s : Nat) | dlv (k : Nat) | dlvEnd | wake (n : Nat) | wdrop (n : Nat) | start (j : Nat) | cancel (i : Nat) | hold
 deriving DecidableEq, Repr
 
 structure Build where
@@ -550,22 +550,24 @@ def findTask (s : Sys) (p : TaskRec → Bool) : Option Nat :=
 def waitingOn (s : Sys) (set : Nat) : Option Nat := findTask s fun r => r.st.last == some (.wait set)
 
 def runStart (s : Sys) (dirs : List Dir) : Sys :=
-  let rec go (fuel : Nat) (s : Sys) (dirs : List Dir) : Sys :=
+  let rec go (fuel : Nat) (s : Sys) (dirs : List Dir) (hold : Bool) : Sys :=
     match fuel with
     | 0 => s.emit [.other "!livelock"]
     | fuel + 1 =>
       if s.panicked then s else
       if s.host.base.trapped then s.emit [Ev.abort] else
-      match findTask s fun r => r.st.last == some .yield with
+      -- tasks that yielded are resumed first, unless the host holds them back for one directive (`P`)
+      match (if hold then none else findTask s fun r => r.st.last == some .yield) with
       | some t =>
         match dirs with
-        | .cancel c :: ds => if c = t then go fuel (cancelTask s t) ds else go fuel (callTask s t 0 0 0) dirs
-        | _ => go fuel (callTask s t 0 0 0) dirs
+        | .hold :: ds => go fuel (s.emit [.x .hold []]) ds true
+        | .cancel c :: ds => if c = t then go fuel (cancelTask s t) ds false else go fuel (callTask s t 0 0 0) dirs false
+        | _ => go fuel (callTask s t 0 0 0) dirs false
       | none =>
         match dirs with
         | .adv k st :: ds =>
           let (b, e) := s.host.base.advance k st
-          go fuel ({ s with host := { s.host with base := b } }.emit e) ds
+          go fuel ({ s with host := { s.host with base := b } }.emit e) ds false
         | .dlv k :: ds =>
           let h := s.host.base.callHandle k
           let set := s.host.setOf h
@@ -573,32 +575,34 @@ def runStart (s : Sys) (dirs : List Dir) : Sys :=
           | some t =>
             if h ≠ 0 ∧ set ≠ 0 ∧ s.host.hasEvent h then
               match s.host.takeEvent h with
-              | some ((e, c), host') => go fuel (callTask { s with host := host' } t e h c) ds
-              | none => go fuel (s.emit [Ev.dlvSkip k]) ds
-            else go fuel (s.emit [Ev.dlvSkip k]) ds
-          | none => go fuel (s.emit [Ev.dlvSkip k]) ds
+              | some ((e, c), host') => go fuel (callTask { s with host := host' } t e h c) ds false
+              | none => go fuel (s.emit [Ev.dlvSkip k]) ds false
+            else go fuel (s.emit [Ev.dlvSkip k]) ds false
+          | none => go fuel (s.emit [Ev.dlvSkip k]) ds false
         | .dlvEnd :: ds =>
           let cand := s.host.ends.filter fun p => p.2.pending.isSome && p.2.set != 0
           match cand.findSome? fun p => (waitingOn s p.2.set).map fun t => (p.1, t) with
           | some (w, t) =>
             match s.host.takeEvent w with
-            | some ((e, c), host') => go fuel (callTask { s with host := host' } t e w c) ds
-            | none => go fuel (s.emit [.x .dlvEndSkip []]) ds
-          | none => go fuel (s.emit [.x .dlvEndSkip []]) ds
-        | .wake n :: ds => go fuel (s.wakeSlot n .hwk .hwkNone) ds
-        | .wdrop n :: ds => go fuel (s.dropSlot n .hwdrop .hwdropNone) ds
-        | .start j :: ds => go fuel (startTask s j) ds
+            | some ((e, c), host') => go fuel (callTask { s with host := host' } t e w c) ds false
+            | none => go fuel (s.emit [.x .dlvEndSkip []]) ds false
+          | none => go fuel (s.emit [.x .dlvEndSkip []]) ds false
+        | .wake n :: ds => go fuel (s.wakeSlot n .hwk .hwkNone) ds false
+        | .wdrop n :: ds => go fuel (s.dropSlot n .hwdrop .hwdropNone) ds false
+        | .start j :: ds => go fuel (startTask s j) ds false
         | .cancel i :: ds =>
           match findTask s fun _ => true with
           | _ =>
             match s.getTask i with
-            | some r => if r.alive then go fuel (cancelTask s i) ds else go fuel (s.emit [.x .cancelTaskSkip [i]]) ds
-            | none => go fuel (s.emit [.x .cancelTaskSkip [i]]) ds
+            | some r => if r.alive then go fuel (cancelTask s i) ds false else go fuel (s.emit [.x .cancelTaskSkip [i]]) ds false
+            | none => go fuel (s.emit [.x .cancelTaskSkip [i]]) ds false
+        | .hold :: ds => go fuel (s.emit [.x .holdSkip []]) ds false
         | [] =>
+          if hold then go fuel s [] false else
           match findTask s fun _ => true with
-          | some t => go fuel (cancelTask s t) []
+          | some t => go fuel (cancelTask s t) [] false
           | none => s
-  go (4 * (dirs.length + s.bodies.foldl (fun n b => n + b.instrs.length) 0) + 40) s dirs
+  go (4 * (dirs.length + s.bodies.foldl (fun n b => n + b.instrs.length) 0) + 40) s dirs false
 
 /-! ### driver `block`: `block_on`, host directives inside `waitable-set.wait` -/
 
@@ -618,6 +622,7 @@ def onWait (s : Sys) (set : Nat) : Sys :=
       | .dlvEnd :: ds => go fuel ({ s with dirs := ds }.emit [.x .dlvEndSkip []])
       | .wake n :: ds => go fuel ({ s with dirs := ds }.wakeSlot n .hwk .hwkNone)
       | .wdrop n :: ds => go fuel ({ s with dirs := ds }.dropSlot n .hwdrop .hwdropNone)
+      | .hold :: ds => go fuel ({ s with dirs := ds }.emit [.x .holdSkip []])
       | .start j :: ds => go fuel ({ s with dirs := ds }.emit [.x .startSkip [j]])
       | .cancel i :: ds => go fuel ({ s with dirs := ds }.emit [.x .cancelTaskSkip [i]])
       | [] =>
